@@ -175,6 +175,9 @@ pub struct HandlerRunner {
     /// C15: the datagram being delivered opens under a known key, but nothing was exchanged with its
     /// source for longer than the session timeout (real clock, 100 ms to spare): Some(idle ms)
     cur_stale_authentic: Option<u64>,
+    /// C04: the datagram being delivered is the peer's answer to request RID of the recipient, sealed for
+    /// the session the recipient itself is sealing under, which was in use well within the timeout
+    cur_expect_resp: Option<u64>,
     /// C03: the WHOAREYOU being delivered echoes the nonce of a handshake this node sent for request RID,
     /// which is still in flight with exactly that packet: the request must fail now
     cur_wru_second: Option<u64>,
@@ -254,6 +257,7 @@ impl Default for HandlerRunner {
             chal_issued: HashMap::new(),
             key_ctr: HashMap::new(),
             cur_stale_authentic: None,
+            cur_expect_resp: None,
             cur_wru_second: None,
             cap: 1000,
             tx_count: HashMap::new(),
@@ -884,6 +888,11 @@ impl HandlerRunner {
                 out.push(format!("!MON C03 second-whoareyou-did-not-fail-the-request node={} rid={}", idx, r));
             }
         }
+        if let Some(r) = self.cur_expect_resp.take() {
+            if !events.iter().any(|e| e.starts_with("rsp>") && e.split('>').nth(2) == Some(&r.to_string())) {
+                out.push(format!("!MON C04 answer-that-arrived-in-time-not-delivered node={} rid={}", idx, r));
+            }
+        }
         // C15: a message that arrives after the session timeout has passed since the last exchange is a
         // message from a peer without a session: the handler asks who that is, it does not accept it
         if let Some(idle) = self.cur_stale_authentic.take() {
@@ -1442,6 +1451,7 @@ impl HandlerRunner {
             self.cur_hs_unchallenged = false;
             self.cur_wru_finished = false;
             self.cur_stale_authentic = None;
+            self.cur_expect_resp = None;
             self.cur_wru_second = None;
         }
         match t {
@@ -1725,6 +1735,24 @@ impl HandlerRunner {
                         if self.dead_keys.contains(&(tidx, k)) {
                             stats.bump("h.message-under-keys-of-an-expired-session");
                             self.cur_stale_authentic = Some(self.ttl_ms + 101);
+                        }
+                    }
+                    // C04: an answer that arrives in time is delivered.  Armed only when nothing can
+                    // have taken the session away: the datagram comes from where the request went, is
+                    // sealed with the counterpart of the key the recipient itself seals with for that
+                    // peer, that session was used less than (timeout - 100 ms) ago on the real clock,
+                    // nothing undecryptable arrived in between, and the cache has room for every node
+                    self.cur_expect_resp = None;
+                    let rid_of_resp: Option<u64> = term.as_ref().and_then(|t| {
+                        t.find("resp/").and_then(|i| t[i + 5..].split('/').next().and_then(|x| x.parse::<u64>().ok()))
+                    });
+                    if let (Some(r), Some(k)) = (rid_of_resp, self.cur_key) {
+                        let in_flight = self.ledger.reqs.get(&(tidx, r)).map(|l| !l.done && l.failures == 0 && l.on_wire && node_addr(l.to) == src).unwrap_or(false);
+                        let same_session = self.key_pair.get(&k).map(|o| self.last_seal.get(&(tidx, src)) == Some(o)).unwrap_or(false);
+                        let fresh = self.entry_use.get(&(tidx, src)).map(|u| (now.duration_since(*u).as_millis() as u64).saturating_add(100) < self.ttl_ms).unwrap_or(false);
+                        if r < 1_000_000 && in_flight && same_session && fresh && !self.entry_dirty.contains(&(tidx, src)) && self.cap >= 4 && self.cur_stale_authentic.is_none() {
+                            stats.bump("h.answer-in-time-on-a-live-session");
+                            self.cur_expect_resp = Some(r);
                         }
                     }
                 }
@@ -2444,6 +2472,33 @@ pub fn gen_case(rng: &mut Rng, tier: &str, profile: &str, stats: &mut Stats) -> 
             ops.push(format!("hresp {} next auto", y));
             ops.push("hdel next".into());
         }
+        ops.push("hquiet".into());
+        return ops;
+    }
+    if profile == "C04" && rng.chance(1, 10) {
+        // directed case: a short session timeout (300 ms of the real clock), a session in steady use; an
+        // answer arrives well within the timeout after the request went out, but later than one timeout
+        // after the session was made: the session is in use, the answer is delivered
+        stats.bump("gen.cases.directed-steady-use-across-the-session-timeout");
+        let (x, y) = if rng.chance(1, 2) { (1, 2) } else { (2, 1) };
+        let mut ops = vec!["hworld 2 1 1000 1000 300".to_string()];
+        ops.push(format!("hreq {} {} enr 1 1", x, y));
+        for _ in 0..2 { ops.push("hdel next".into()); }
+        ops.push(format!("hwru {} next known", y));
+        for _ in 0..3 { ops.push("hdel next".into()); }
+        ops.push(format!("hresp {} next auto", y));
+        ops.push("hdel next".into());
+        ops.push("hsleep 120".into());
+        ops.push(format!("hreq {} {} enr 2 {}", x, y, rng.range(1, 4)));
+        ops.push("hdel next".into());
+        ops.push(format!("hresp {} next auto", y));
+        ops.push("hdel next".into());
+        ops.push("hsleep 120".into());
+        ops.push(format!("hreq {} {} enr 3 {}", x, y, rng.range(1, 4)));
+        ops.push("hdel next".into());
+        ops.push(format!("hresp {} next auto", y));
+        ops.push("hsleep 100".into());
+        ops.push("hdel next".into());
         ops.push("hquiet".into());
         return ops;
     }
